@@ -4451,9 +4451,12 @@ class FlowIR(object):
                 status_report[self.stage_identifier_to_stage_index(key)] = status_report.pop(key)
 
             # VV: stages may share one dictionary (YAML anchors), give each stage its own before weights are written
+            #     (an entry which is not a dictionary, e.g. an empty `0:` in the YAML, defines no weight)
             for key in list(status_report):
                 if isinstance(status_report[key], dict):
                     status_report[key] = dict(status_report[key])
+                else:
+                    status_report[key] = {}
 
             weights = []
             for idx in range(num_stages):
@@ -4464,7 +4467,7 @@ class FlowIR(object):
 
                 try:
                     stage_weight = float(flowir[self.FieldStatusReport][idx]['stage-weight'])
-                except (ValueError, TypeError):
+                except (ValueError, TypeError, OverflowError):
                     # VV: a weight that is not a number counts as missing, also for whoever reads the status report next
                     stage_weight = 0.0
                     flowir[self.FieldStatusReport][idx]['stage-weight'] = stage_weight
